@@ -22,7 +22,7 @@ from . import dailyframe as F
 from . import dataclass as D
 
 EXPLANATION = "C09: end-to-end symbolic run of the daily/billing data classes; per-day temperature = mean of present readings, NaN iff half or fewer present; coverage counts."
-BOUNDS = {"quick": dict(days=3, feeds=["60min", "30min"], zones=["US/Pacific (23h day)", "UTC"], missing_layouts=["0", "1", "half-1", "half", "half+1"]),
+BOUNDS = {"quick": dict(days=3, feeds=["60min", "30min"], zones=["US/Pacific (23h day)", "UTC", "Europe/London (25h day, hourly feed only)"], missing_layouts=["0", "1", "half-1", "half", "half+1"]),
           "thorough": dict(days=4, feeds=["60min", "30min"], zones=["US/Pacific (23h day)", "UTC", "Australia/Sydney (25h day)", "Europe/London"], missing_layouts="same + scattered")}
 STUBS = ["SufficiencyCriteria._check_extreme_values -> no-op (float()/quantile; covered by C10)",
          "_check_data_sufficiency wrapped to record its argument (the per-day counts exist nowhere else), then runs unchanged"]
@@ -30,7 +30,7 @@ MODELS_USED = ["symreal ExtensionArray (resample/asfreq/merge_asof/groupby execu
 ASSUMPTIONS = ["feeds/offsets/zones are an enumerated catalogue; temperatures, usage values and the missing layout are solver-quantified",
                "equalities through inexact float constants (1/60 atoms) use relative tolerance 1e-9"]
 EXPECTED_REGIMES = ["exactly half of the day's readings present", "one more than half present", "23-hour day", "feed in another timezone than the meter",
-                    "meter read at 06:00 (its own 24-hour day)"]
+                    "meter read at 06:00 (its own 24-hour day)", "25-hour day"]
 STEP = {"60": pd.Timedelta(hours=1), "30": pd.Timedelta(minutes=30)}
 START = {"US/Pacific": "2021-03-13", "UTC": "2021-06-01", "Australia/Sydney": "2021-04-03", "Europe/London": "2021-10-30"}
 
@@ -51,6 +51,8 @@ def cases(tier, seed):
             out.append(f"series-utc|{z}|{feed}|daily")
         out.append(f"series-06|{z}|60|daily")
     out.append("series-06|US/Pacific|30|daily")
+    if tier != "thorough":  # a 25-hour day in the quick tier as well
+        out += ["frame|Europe/London|60|daily", "series-06|Europe/London|60|daily"]
     return out
 
 
@@ -224,6 +226,8 @@ def run_case(case: Case, name: str):
                            exclude=[("C09-final-reading-dropped", z3.BoolVal(last_day)), ("C09-subhourly-feed-offhour-meter", offhour_subhourly)])
             if len(allp) * (idx[1] - idx[0]) == pd.Timedelta(hours=23):
                 case.regime("23-hour day")
+            if len(allp) * (idx[1] - idx[0]) == pd.Timedelta(hours=25):
+                case.regime("25-hour day")
             if entry == "series-06":
                 case.regime("meter read at 06:00 (its own 24-hour day)")
         case.prove(p, seen >= days - 1, "every complete meter day of the span has a temperature row", replay=rp)
